@@ -118,6 +118,16 @@ var c15ops = []c15op{
 		s, e := f.priv.Sign(nil, f.digest, &ed25519.Options{Hash: crypto.SHA512})
 		return dig(s, e)
 	}},
+	{"SignPhSameCtxAsSignCtx", nil, func() string {
+		f := fixtures()
+		s, e := f.priv.Sign(nil, f.digest, &ed25519.Options{Hash: crypto.SHA512, Context: "ctx"})
+		return dig(s, e)
+	}},
+	{"VerifyPhSameCtxAsSignCtx", nil, func() string {
+		f := fixtures()
+		sig, _ := f.std.Sign(nil, f.digest, &stded.Options{Hash: crypto.SHA512, Context: "ctx"})
+		return dig(ed25519.VerifyWithOptions(f.pub, f.digest, sig, &ed25519.Options{Hash: crypto.SHA512, Context: "ctx"}))
+	}},
 	{"VerifyGood", nil, func() string { f := fixtures(); return dig(ed25519.Verify(f.pub, f.msg, f.sigPure)) }},
 	{"VerifyBad", nil, func() string { f := fixtures(); return dig(ed25519.Verify(f.pub, []byte("other"), f.sigPure)) }},
 	{"VerifyBadSigSameKeyMsg", nil, func() string {
